@@ -48,7 +48,7 @@ Forces(s) == Fn([k \in 1..Len(s) |-> RatSeq(s[k])])
 DecReq(d, j) ==
     CASE j.q \in {"size", "k0", "kM", "place"} -> [q |-> j.q]
       [] j.q = "kG0" -> [q |-> "kG0", N |-> IF d.kind = "asm" THEN Fn([k \in 1..Len(j.N) |-> RatSeq(j.N[k])]) ELSE RatSeq(j.N)]
-      [] j.q \in {"fint", "kT"} -> [q |-> j.q, c |-> RatSeq(j.c)]
+      [] j.q \in {"fint", "kT", "kGc"} -> [q |-> j.q, c |-> RatSeq(j.c)]
       [] j.q = "b1dmass" -> [q |-> "b1dmass", k |-> j.k]
       [] j.q = "stiff" -> [q |-> "stiff", k |-> j.k, mat |-> j.mat, Nf |-> RatSeq(j.Nf), Nb |-> RatSeq(j.Nb)]
       [] j.q = "fint_part" -> [q |-> "fint_part", k |-> j.k, c |-> RatSeq(j.c)]
@@ -61,7 +61,7 @@ DecReq(d, j) ==
 
 IsVecQ(q) == q \in {"fext", "fint", "fint_part"}
 Shape(q, M) == IF IsVecQ(q) THEN Fn([k \in 1..Len(M) |-> <<M[k]>>]) ELSE M
-TolOf(q) == IF q \in {"fint", "kT", "fint_part"} THEN TolNL ELSE Tol
+TolOf(q) == IF q \in {"fint", "kT", "kGc", "fint_part"} THEN TolNL ELSE Tol
 (* E: rows of <<value, scale>>; obs: rows of doubles *)
 BadEntries(obs, E, t) ==
     IF Len(obs) # Len(E) THEN {<<0, 0>>}
